@@ -58,6 +58,31 @@ CLAIMS = {
         'technique': 'intraprocedural taint (sources/sanitiser/sinks) over '
                      'reaching definitions + CFG guard-dominance (ast)',
     },
+    'C06': {
+        'text': 'The receive phase gate of _recv_packet is evaluated as a '
+                'complete decision table: a finite-domain abstract '
+                'interpretation of its if/elif chain over every packet-type '
+                'class (cut at the constants the code compares with) x '
+                '{kex in progress, ignore-first-kex, strict, keys in effect, '
+                'auth in progress, auth complete, channel known, handler '
+                'result}; ~12 000 abstract states, 18 required implications '
+                '(reject rows, dispatch-target row, liveness rows, '
+                'UNIMPLEMENTED tail). Plus: strict-KEX write-site and '
+                'ordering rules, sequence reset / rollover rules on both '
+                'sides, wrong-role paths of 16 single-role handlers perform '
+                'no send/callback and end in a DisconnectError, state-guarded '
+                'handlers, and the role split of the open / global-request / '
+                'channel-request handler sets against the RFC 4254 + OpenSSH '
+                'table. Tests fix one message order; the table is exhaustive '
+                'for the abstraction.',
+        'note': TB + 'invariants _auth => keys in effect and _auth_complete '
+                '=> keys in effect are used to prune states and are themselves '
+                'checked as who-may-write rules. Not decided: trace '
+                'equivalence for ignored/unimplemented messages.',
+        'technique': 'finite-domain abstract interpretation of the decision '
+                     'chain (complete table) + CFG reachability with role '
+                     'edges deleted + method-set comparison (ast)',
+    },
 }
 
 PENDING = 'check not built yet in this session (planned, see DESIGN.md section 5)'
